@@ -53,6 +53,19 @@ func c13Pool(kind string, variant string) []ap.Item {
 		return []ap.Item{ap.IRI(ids[0]), ap.IRI(ids[1]), &ap.Object{ID: ap.IRI(ids[2]), Type: ap.ArticleType}, &ap.Object{ID: ap.IRI(ids[3]), Type: ap.NoteType},
 			&ap.Actor{ID: ap.IRI(ids[4]), Type: ap.ServiceType}, ap.IRI(ids[5])}
 	}
+	if variant == "wrapped" {
+		// ids that carry another member's id in their query (interaction and proxy endpoints): other resources, although they end alike
+		a := "https://a.example/users/1"
+		ids := []string{a, "https://b.example/proxy?id=" + a, "https://c.example/authorize_interaction?uri=" + a, "https://a.example/users/2", "https://b.example/proxy?id=https://a.example/users/2", a + "/sub"}
+		if kind == "IRIs" {
+			var out []ap.Item
+			for _, id := range ids {
+				out = append(out, ap.IRI(id))
+			}
+			return out
+		}
+		return []ap.Item{ap.IRI(ids[0]), ap.IRI(ids[1]), &ap.Object{ID: ap.IRI(ids[2]), Type: ap.NoteType}, &ap.Actor{ID: ap.IRI(ids[3]), Type: ap.PersonType}, ap.IRI(ids[4]), ap.IRI(ids[5])}
+	}
 	if variant == "opaque" {
 		// identities that are URIs without an authority (urn:, acct:, did:, mailto:, tag:): distinct strings, distinct members
 		ids := []string{"urn:uuid:6e8bc430-9c3a-11d9-9669-0800200c9a66", "urn:uuid:6e8bc430-9c3a-11d9-9669-0800200c9a67", "acct:alice@example.com", "did:example:123456789abcdefghi",
@@ -162,7 +175,7 @@ func c13KindVariants() [][2]string {
 		}
 	}
 	for _, k := range c13Containers {
-		out = append(out, [2]string{k, "near"}, [2]string{k, "opaque"})
+		out = append(out, [2]string{k, "near"}, [2]string{k, "opaque"}, [2]string{k, "wrapped"})
 	}
 	for _, k := range c13Containers {
 		if k != "IRIs" {
@@ -306,7 +319,7 @@ func c13NonTrivial(hist []c13Op) bool {
 func TestC13(t *testing.T) {
 	r := ev.Open(t, "C13")
 	defer r.Close(t)
-	r.Rule("histories over a pool of items with pairwise non-equivalent ids in mixed shapes (IRI, Object, Actor, Activity; held by pointer, in the /val variant by value, in the /near variant with ids that differ only in their query, port or last path segment, in the /opaque variant with URIs that have no authority: urn:, acct:, did:, mailto:, tag:, and in the /rich0-4 variants with members of all 13 object types holding every property their type has, pages also nested in an object's replies; in the /richval0-4 variants the same members held by value; and in the /twin0-12 variants with six members of one type that hold the same in every property and differ in their ids only): every history of Append(1 or 2 items)/Remove/Contains " +
+	r.Rule("histories over a pool of items with pairwise non-equivalent ids in mixed shapes (IRI, Object, Actor, Activity; held by pointer, in the /val variant by value, in the /near variant with ids that differ only in their query, port or last path segment, in the /wrapped variant with ids that carry another member's id in their query, in the /opaque variant with URIs that have no authority: urn:, acct:, did:, mailto:, tag:, and in the /rich0-4 variants with members of all 13 object types holding every property their type has, pages also nested in an object's replies; in the /richval0-4 variants the same members held by value; and in the /twin0-12 variants with six members of one type that hold the same in every property and differ in their ids only): every history of Append(1 or 2 items)/Remove/Contains " +
 		"up to the length bound over a 3-item pool for each of the 6 containers (Remove through ToItemCollection(container); not offered for IRIs whose item-list view is a copy), then random " +
 		"histories over a 6-item pool; after every step Count(), Collection() order and Contains() of every pool item are compared with a reference ordered set. " +
 		"non-trivial = a Remove after >= 2 appended items or a re-Append of an item seen before; distinct by container + op sequence")
